@@ -44,6 +44,8 @@ typedef struct vif {
     uint32_t calls[16];      /* calls per getter, indexed by the bit number of its VF_* flag */
     uint32_t fail_nth_mask;  /* one-shot fault: the fail_nth-th call (counted over the getters in this mask) fails once */
     long     fail_nth;
+    int      fail_style;     /* how a failing per-interface getter fails: 0 returns an error and leaves its output untouched; 1 scribbles over its output
+                                first (MTU: 7) and then returns the error; 2 (MTU getter only) reports success with the value 0 ("never learnt") */
 } vif;
 
 typedef struct vp_global_cfg {
